@@ -208,7 +208,67 @@ def write_file(fc, path):
             counters.append([int(w._counters[CKEY[t]]) for t in TABLES] + [int(w._counters["indices"])])
         finally:
             w.close()
-    return {"ctor": None, "outcomes": outcomes, "counters": counters}
+    out = {"ctor": None, "outcomes": outcomes, "counters": counters}
+    if fc.get("analysis"):
+        exp = write_analysis(fc["analysis"], path)
+        if exp is not None:
+            out["analysis_expected"] = exp
+    return out
+
+
+ANALYSIS_NAME = "reco"
+
+
+def analysis_plan(spec, n):
+    """Deterministic post-processing plan for a file of n events: an analysis dataset with rows for
+    an arbitrary subset of the events, blocks stored in arbitrary order (with unreferenced filler
+    rows in between), index entries written in arbitrary order.  Returns (rows, entries)"""
+    import random
+    r = random.Random(spec["seed"])
+    chosen = [i for i in range(n) if r.random() < spec.get("p", 0.5)]
+    r.shuffle(chosen)
+    rows, entries = [], []
+    for i in chosen:
+        if r.random() < 0.3:
+            rows.append([-1.0, -1.0])                 # a row no event refers to
+        ln = r.choice([0, 1, 1, 2, 3])
+        entries.append([i, len(rows), ln])
+        rows += [[float(1000 * (i + 1) + j), float(j)] for j in range(ln)]
+    r.shuffle(entries)
+    return rows, entries
+
+
+def write_analysis(spec, path):
+    """mode='a' pass the documented way: create_analysis_dataset + add_analysis_indices for the
+    selected events only.  Returns the per-event expected rows (from the plan, not from the file)."""
+    import h5py
+    pyrex = _pyrex()
+    with h5py.File(path, "r") as f:
+        n = int(f["/event_indices"].shape[0])
+    rows, entries = analysis_plan(spec, n)
+    with pyrex.File(path, "a") as w:
+        ds = w.create_analysis_dataset(ANALYSIS_NAME, shape=(len(rows), 2), dtype="f8")
+        if rows:
+            ds[...] = np.array(rows)
+        for ev, start, ln in entries:
+            w.add_analysis_indices(ANALYSIS_NAME, ev, start, ln)
+    if not entries:
+        return None            # no event refers to the dataset: it is not event-indexed at all
+    expected = [[] for _ in range(n)]
+    for ev, start, ln in entries:
+        expected[ev] = [[int(x) for x in row] for row in rows[start:start + ln]]
+    return expected
+
+
+def observe_analysis(ev):
+    """Rows of the analysis dataset for the event (None when the file has none)."""
+    if ANALYSIS_NAME not in ev._locations_original:
+        return None
+    try:
+        a = ev.get_data(ANALYSIS_NAME)
+        return [[int(x) for x in row] for row in np.asarray(a).reshape(-1, 2)] if len(a) else []
+    except Exception as e:
+        return "CRASH:" + type(e).__name__
 
 
 # ------------------------------------------------------------------- raw file view
@@ -219,14 +279,15 @@ def raw_view(path):
     with h5py.File(path, "r") as f:
         idx = f["/event_indices"]
         keys = [k if isinstance(k, str) else k.decode() for k in idx.attrs["keys"]]
-        out["cols"] = [LOC_INV.get(k, k) for k in keys]
+        allcols = [LOC_INV.get(k, k) for k in keys]
+        out["cols"] = [c for c in allcols if c in TABLES]
         arr = idx[...] if idx.shape[0] and idx.shape[1] else np.zeros((idx.shape[0], idx.shape[1], 2), dtype=int)
         rows = []
         for r in range(idx.shape[0]):
             row = []
             for t in TABLES:
-                if t in out["cols"]:
-                    c = out["cols"].index(t)
+                if t in allcols:
+                    c = allcols.index(t)
                     row.append([int(arr[r, c, 0]), int(arr[r, c, 1])])
                 else:
                     row.append([0, 0])
@@ -300,11 +361,14 @@ def observe_event(ev, reg=None, deep=True):
             if allnames != want:
                 rows = "BAD:get_triggered_components()=%s rows say %s" % (allnames, want)
             else:
-                for r in range(len(data) + 1):
-                    got = sorted(ev.get_triggered_components(ray=r))
+                for r in list(range(len(data) + 2)) + ["direct", "reflected"]:
+                    rr = r
+                    if isinstance(r, str):
+                        r = ["direct", "reflected"].index(r)
+                    got = sorted(ev.get_triggered_components(ray=rr))
                     want = sorted(k for k, c in keys.items() if r < len(data) and data[r][c])
                     if got != want:
-                        rows = "BAD:get_triggered_components(ray=%d)=%s row says %s" % (r, got, want)
+                        rows = "BAD:get_triggered_components(ray=%r)=%s row says %s" % (rr, got, want)
                         break
         out.append(rows)
     except Exception as e:
@@ -381,6 +445,18 @@ def observe_event(ev, reg=None, deep=True):
                 one = ev.get_waveforms(waveform_type=r)
                 if [_vl_tag(one[a][1]) for a in range(len(one))] != rows[r]:
                     bad = "get_waveforms(waveform_type=%d) differs" % r
+                if r < 2:
+                    one = ev.get_waveforms(waveform_type=["direct", "Reflected"][r])
+                    if [_vl_tag(one[a][1]) for a in range(len(one))] != rows[r]:
+                        bad = "get_waveforms(waveform_type=%r) differs" % ["direct", "Reflected"][r]
+            # one and two past the event's last waveform: nothing, never another event's rows
+            for r in (len(wf), len(wf) + 1):
+                forms = [r] + ([["direct", "reflected"][r]] if r < 2 else [])
+                for form in forms:
+                    for ant in [None] + list(range(len(wf[0]) if len(wf) else 0)):
+                        past = ev.get_waveforms(antenna_id=ant, waveform_type=form)
+                        if len(past) != 0:
+                            bad = "get_waveforms(antenna_id=%r, waveform_type=%r) returns data beyond the event's %d waveforms" % (ant, form, len(wf))
             for a in range(len(wf[0]) if len(wf) else 0):
                 col = ev.get_waveforms(antenna_id=a)
                 if [_vl_tag(col[r][1]) for r in range(len(col))] != [row[a] for row in rows]:
@@ -524,13 +600,33 @@ def run_query(q, paths, deep=False, readers=None):
         f = readers.get(paths[q[1]], q[2])
         if kind == "len":
             return ["ok", [len(f)]]
-        if kind == "iter":
-            return ["ok", [fp_obs(observe_event(ev, deep=deep)) for ev in f]]
-        if kind == "int":
-            return ["ok", [fp_obs(observe_event(f[q[3]], deep=deep))]]
-        if kind == "slice":
-            a, b, s = q[3], q[4], q[5]
-            return ["ok", [fp_obs(observe_event(ev, deep=deep)) for ev in f[slice(a, b, s)]]]
+        if kind in ("iter", "int", "slice"):
+            if kind == "iter":
+                it = f
+            elif kind == "int":
+                it = [f[q[3]]]
+            else:
+                it = f[slice(q[3], q[4], q[5])]
+            fps, ana = [], []
+            for ev in it:
+                fps.append(fp_obs(observe_event(ev, deep=deep)))
+                ana.append(observe_analysis(ev))
+            return ["ok", fps, ana]
+        if kind == "wf":
+            # HDF5Reader.get_waveforms(event_id, antenna_id, waveform_type): one waveform row of one event
+            i, k, form = q[3], q[4], q[5]
+            wt = {0: "direct", 1: "reflected"}[k] if (form == "str" and k in (0, 1)) else (float(k) if form == "float" else k)
+            row = f.get_waveforms(event_id=i, waveform_type=wt)
+            tags = [_vl_tag(row[a][1]) for a in range(len(row))]
+            for a in range(len(row)):
+                one = f.get_waveforms(event_id=i, antenna_id=a, waveform_type=wt)
+                if _vl_tag(one[1]) != tags[a]:
+                    tags = [-999]
+                    break
+            return ["ok", tags]
+        if kind == "wfev":
+            blk = f.get_waveforms(event_id=q[3])
+            return ["ok", [_vl_tag(blk[r][a][1]) for r in range(len(blk)) for a in range(len(blk[r]))]]
         raise ValueError("unknown query %r" % (q,))
     except Exception as e:
         return ["err", type(e).__name__]
@@ -554,7 +650,11 @@ def run_impl(case, scratch, tag="c", query_gen=None):
             rec = {"ctor": w["ctor"], "outcomes": w["outcomes"], "counters": w["counters"]}
             if w["ctor"] is None:
                 rec.update(raw_view(path))
-                rec["events"] = read_all(path)
+                ra = read_all(path)
+                rec["analysis_obs"] = ra[3] if ra[0] == "ok" else None
+                rec["events"] = ra[:3]
+                if "analysis_expected" in w:
+                    rec["analysis_expected"] = w["analysis_expected"]
             files.append(rec)
         if query_gen is not None:
             case["queries"] = query_gen(case, files)
@@ -574,8 +674,11 @@ def read_all(path):
     try:
         with pyrex.File(path, "r") as f:
             n = len(f)
-            evs = [observe_event(ev, deep=True) for ev in f]
-            return ["ok", n, evs]
+            evs, ana = [], []
+            for ev in f:
+                evs.append(observe_event(ev, deep=True))
+                ana.append(observe_analysis(ev))
+            return ["ok", n, evs, ana]
     except Exception as e:
         return ["err", type(e).__name__, traceback.format_exc()[-600:]]
 
@@ -674,6 +777,10 @@ def coq_query(q):
         return "(QInt %d %s %s)" % (fid, coq_oz(k), zl(q[3]))
     if kind == "slice":
         return "(QSlice %d %s %s %s %s)" % (fid, coq_oz(k), coq_oz(q[3]), coq_oz(q[4]), coq_oz(q[5]))
+    if kind == "wf":
+        return "(QWf %d %s %s)" % (fid, zl(q[3]), zl(q[4]))
+    if kind == "wfev":
+        return "(QWfEv %d %s)" % (fid, zl(q[3]))
     raise ValueError(q)
 
 
@@ -1160,11 +1267,35 @@ def oracle_query(q, got, recs, fcs):
     n = len(base)
     if kind == "len":
         return "" if got == ["ok", [n]] else "len(file) gives %s, sequential pass has %d events" % (got, n)
+    if kind in ("wf", "wfev"):
+        evs = recs[fid]["events"][2]
+        i = q[3]
+        if not (0 <= i < n):
+            return ""
+        w = evs[i][TABLES.index("W")]
+        if isinstance(w, str) and w != "NA":
+            return ""
+        rows = [] if w == "NA" else w
+        if kind == "wfev":
+            if w == "NA":
+                return "" if got[0] == "err" else "reader.get_waveforms(event_id=%d) returns data although no waveforms are stored" % i
+            flat = [x for r in rows for x in r]
+            return "" if got == ["ok", flat] else "reader.get_waveforms(event_id=%d) gives %s, the event's own waveforms are %s" % (i, json.dumps(got)[:160], rows)
+        k = q[4]
+        if 0 <= k < len(rows):
+            return "" if got == ["ok", rows[k]] else "reader.get_waveforms(event_id=%d, waveform_type=%r) gives %s, the event's waveform %d is %s" % (i, k, json.dumps(got)[:160], k, rows[k])
+        if k >= len(rows):
+            return "" if got[0] == "err" else ("reader.get_waveforms(event_id=%d, waveform_type=%r) returns %s although event %d has only %d waveform rows "
+                                               "(data of another event instead of nothing)" % (i, k, json.dumps(got[1])[:120], i, len(rows)))
+        return ""
     want = None
+    idxs = None
     if kind == "iter" and n >= 1 and (q[2] is None or q[2] >= 1):
         want = base
+        idxs = list(range(n))
     elif kind == "int" and -n <= q[3] < n:
         want = [base[q[3] % n]]
+        idxs = [q[3] % n]
     elif kind == "slice":
         a, b, s = q[3], q[4], q[5]
         aa = 0 if a is None else (a + n if a < 0 else a)
@@ -1172,10 +1303,16 @@ def oracle_query(q, got, recs, fcs):
         ss = 1 if s is None else s
         if 0 <= aa < bb <= n and ss >= 1 and (q[2] is None or q[2] >= 1):
             want = [base[i] for i in range(aa, bb, ss)]
+            idxs = list(range(aa, bb, ss))
     if want is None:
         return ""
     if got[0] != "ok":
         return "%s raises %s" % (describe_query(q), got[1])
+    exp_a = recs[fid].get("analysis_expected")
+    if exp_a is not None and len(got) > 2 and len(got[2]) == len(idxs):
+        for pos, (i, a) in enumerate(zip(idxs, got[2])):
+            if a != exp_a[i]:
+                return "%s: analysis dataset of event %d reads %s, stored for it: %s" % (describe_query(q), i, json.dumps(a)[:160], json.dumps(exp_a[i])[:160])
     if got[1] != want:
         bad = [i for i, (x, y) in enumerate(zip(got[1], want)) if x != y]
         return "%s yields %d events, %s; the sequential pass gives %d there" % (
@@ -1191,6 +1328,10 @@ def describe_query(q):
         return "f[%d] (slice_range=%s)" % (q[3], q[2])
     if q[0] == "slice":
         return "f[%s:%s:%s] (slice_range=%s)" % (q[3], q[4], q[5], q[2])
+    if q[0] == "wf":
+        return "reader.get_waveforms(event_id=%d, waveform_type=%d as %s)" % (q[3], q[4], q[5])
+    if q[0] == "wfev":
+        return "reader.get_waveforms(event_id=%d)" % q[3]
     return str(q)
 
 
@@ -1253,7 +1394,9 @@ PINNED = {"pyrex/io.py": ["HDF5Writer.add", "HDF5Writer._rollback", "HDF5Writer.
                           "HDF5Writer._write_waveforms", "HDF5Writer.open", "HDF5Writer.__init__",
                           "EventIterator.__init__", "EventIterator.__next__", "EventIterator._load_data",
                           "EventIterator._get_event_data", "HDF5Reader.__getitem__", "HDF5Reader.__iter__",
-                          "HDF5Reader.__len__", "HDF5Reader.open"],
+                          "HDF5Reader.__len__", "HDF5Reader.open", "HDF5Reader.get_waveforms", "HDF5Reader._get_table_slice",
+                          "EventIterator.get_waveforms", "EventIterator.get_triggered_components", "EventIterator.get_data",
+                          "HDF5Writer.add_analysis_indices", "HDF5Writer.create_analysis_dataset"],
           "pyrex/generation.py": ["FileGenerator.__init__", "FileGenerator._load_events", "FileGenerator._next_file",
                                   "FileGenerator.create_event", "FileGenerator.count"]}
 
@@ -1323,11 +1466,19 @@ def judge(case, impl, prop):
             if v:
                 out.append(v)
         for q, g in zip(case.get("queries", []), impl["queries"]):
-            if q[0] == "len":
+            if q[0] in ("len", "wf", "wfev"):
                 v = oracle_query(q, g, impl["files"], case["files"])
                 if v:
                     out.append(v)
     else:
+        for fi, (fc, rec) in enumerate(zip(case["files"], impl["files"])):
+            exp_a = rec.get("analysis_expected")
+            if exp_a is not None and rec.get("analysis_obs") is not None and records_particles(fc["opts"]):
+                for i, (a, w) in enumerate(zip(rec["analysis_obs"], exp_a)):
+                    if a != w:
+                        out.append("sequential pass (default slice_range) of file %d: analysis dataset of event %d reads %s, stored for it: %s"
+                                   % (fi, i, json.dumps(a)[:160], json.dumps(w)[:160]))
+                        break
         for q, g in zip(case.get("queries", []), impl["queries"]):
             v = oracle_query(q, g, impl["files"], case["files"])
             if v:
